@@ -101,6 +101,12 @@ def run(case, choices):
     obs, term, sock = observe(cfg, data, cuts)
     log.add("ref", "terminal", rterm)
     log.add("parser", "terminal", (len(obs), term[:2] if len(term) > 1 else term))
+    if term[0] == "reject" and len(term) > 3 and term[2] == "body" and term[3] is not None:
+        res.violate("C01:request-after-body-framing-error:" + term[1],
+                    "reading the body of request %d raised %s (broken framing); an application that catches that and answers normally lets the "
+                    "worker ask for the next request of the connection - and the parser yields %r from the bytes behind the broken body "
+                    "instead of ending the connection; %s"
+                    % (len(obs) - 1, term[1], term[3], "stream=%s cfg=%r seg=%s" % (bsafe(data, 260), cfgd, case["seg"])))
     ctx = lambda: "stream=%s cfg=%r seg=%s eof_at=%r" % (bsafe(data, 260), cfgd, case["seg"], case["eof_at"])
 
     for i, o in enumerate(obs):
